@@ -59,16 +59,16 @@ theorem moveOrCopy_coherent (s t : Sheet) (rs re cs ce : Nat) (dr dc : Int) (mv 
   · simp at hok
   · split at hok
     · simp at hok
-    · injection hok with hok; subst hok
-      apply foldl_coherent
-      · intro s c hs; exact setCell_coherent _ _ _ _ _ hs
-      · split
-        · apply foldl_coherent _ _ _ _ h
-          intro s r hs
-          apply foldl_coherent _ _ _ _ hs
-          intro s c hs
-          exact removeCell_coherent _ _ _ (removeCell_coherent _ _ _ hs)
-        · exact h
+    · split at hok
+      · simp at hok
+      · injection hok with hok; subst hok
+        apply foldl_coherent
+        · intro s c hs; exact setCell_coherent _ _ _ _ _ hs
+        · split
+          · apply foldl_coherent _ _ _ _ h
+            intro s p hs
+            exact removeCell_coherent _ _ _ (removeCell_coherent _ _ _ hs)
+          · exact h
 
 /-! ### cleanup -/
 
